@@ -16,6 +16,7 @@ ops (CERT = 12-token descriptor, Driver/CertArgs.lean):
          and curve) and verified against a pool holding the CA; `sig` = CheckSignature of the altered certificate
          under the CA key (observed); identity = everything but the signature; block = the original's
          fingerprint is blocklisted first.
+  p256n | swap <sig hex> | lows <sig hex> | twinblock …      see Driver/P256Twin.lean
 -/
 import Nebula.Driver.CertArgs
 import Nebula.Driver.Certsign
@@ -23,7 +24,11 @@ import Nebula.Model.CertV1
 import Nebula.Model.CertV2
 import Nebula.Model.P256Sig
 import Nebula.Driver.Certverify
+<<<<<<< HEAD
 import Nebula.Driver.CertPemOps
+=======
+import Nebula.Driver.P256Twin
+>>>>>>> eng-cert6
 
 namespace Nebula.Driver.Certcodec
 open Nebula.Driver Nebula.Net Nebula.Cert Nebula.Driver.Certsign
@@ -225,7 +230,15 @@ def step (s : Unit) (args : List String) (impl : String) : Unit × Out :=
       let verdict := if impl.startsWith "differs" then s!"bad copy-differs {impl}" else "ok"
       (s, { model := m, verdict := verdict, tag := if m == "same" then "copy:same" else "triv:copy-undecodable" })
     | _, _ => (s, badOp)
+<<<<<<< HEAD
   | _ => (s, CertPemOps.pemStep args impl)   -- the PEM layer: Driver/CertPemOps.lean
+=======
+  | _ =>
+    -- p256n / swap / lows / twinblock: Driver/P256Twin.lean
+    match P256Twin.step decode args impl with
+    | some o => (s, o)
+    | none => (s, badOp)
+>>>>>>> eng-cert6
 
 def main : IO Unit := runEngine () step
 
